@@ -51,8 +51,11 @@ R.macro("win_same", ["n", "o"], "(o in n._sent_answers) == old(o in n._sent_answ
                                 "items(n._sent_answers[o]) == old(items(n._sent_answers[o])) and "
                                 "maxlen(n._sent_answers[o]) == old(maxlen(n._sent_answers[o])))")
 
+_OWA = "self._origin_waiting_answer"
+_OWA_ONLY = ("(mk in OWA) == (old(mk in OWA) and not (COND and mk == mkey(message))) and "
+             "implies(mk in OWA, OWA[mk][0] == old(OWA[mk][0]))").replace("OWA", _OWA)
 R.contract("Node._record_answer", params={"self": "Node", "conn": "PeerConnection", "message": "Message"},
-           ghost={"o": "Opt[bytes]"},
+           ghost={"o": "Opt[bytes]", "mk": "str"},
            requires=[("window-well-formed", "win_ok(self, o)"),
                      ("windows-not-shared",
                       "implies(mkey(message) in self._origin_waiting_answer and o in self._sent_answers and "
@@ -73,6 +76,7 @@ R.contract("Node._record_answer", params={"self": "Node", "conn": "PeerConnectio
                      "old(self._origin_waiting_answer[mkey(message)][0]) != o, "
                      "(o in self._sent_answers) == old(o in self._sent_answers) and window(self, o) == old(window(self, o)))"),
                     ("pending-entry-released", "not (mkey(message) in self._origin_waiting_answer)"),
+                    ("only-the-answered-record-leaves-the-origin-table", _OWA_ONLY.replace("COND", "True")),
                     ("a-new-window-is-bounded-by-the-configured-size",
                      "implies(not old(o in self._sent_answers) and o in self._sent_answers, "
                      "maxlen(self._sent_answers[o]) == self.retransmit_queue_size)"),
@@ -89,7 +93,7 @@ R.macro("pwa_has", ["n", "h", "x"], "h in n._peer_waiting_answer and x in n._pee
 _REC_TYPEERR = ("mkey(message) in self._origin_waiting_answer and not is_none(peer_of(self, conn)) and "
                 "hasattr(message, 'result_code') and (not has(message, 'result_code') or is_none(message.result_code))")
 R.contract("Node.send_message", params={"self": "Node", "conn": "PeerConnection", "message": "Message"},
-           ghost={"o": "Opt[bytes]"},
+           ghost={"o": "Opt[bytes]", "mk": "str"},
            requires=[("flags-octet", "0 <= message.header.command_flags < 256"),
                      ("window-well-formed", "implies(not is_req(message), win_ok(self, o))"),
                      ("windows-not-shared",
@@ -102,6 +106,7 @@ R.contract("Node.send_message", params={"self": "Node", "conn": "PeerConnection"
                     ("answer-releases-pending-hbh",
                      "implies(not is_req(message), not pwa_has(self, conn.host_identity, message.header.hop_by_hop_identifier))"),
                     ("answer-releases-the-origin-record", "implies(not is_req(message), not (mkey(message) in self._origin_waiting_answer))"),
+                    ("only-the-answered-record-leaves-the-origin-table", _OWA_ONLY.replace("COND", "not is_req(message)")),
                     ("request-keeps-window", "implies(is_req(message), (o in self._sent_answers) == old(o in self._sent_answers) "
                                              "and window(self, o) == old(window(self, o)))"),
                     ("answered-id-enters-window",
@@ -252,7 +257,7 @@ def _app_registered(ex, st, node, tok):
 R.macro("realm_of", ["m"], "utf8dec(some(m.destination_realm))")
 
 R.contract("Node._receive_app_request", params={"self": "Node", "conn": "PeerConnection", "message": "Message"},
-           ghost={"o": "Opt[bytes]", "w": "Any:routekey", "h1": "str"},
+           ghost={"o": "Opt[bytes]", "w": "Any:routekey", "h1": "str", "mk": "str"},
            requires=_NODE_READY + _WIN_REQ + [
                ("realm-attr-set", "implies(hasattr(message, 'destination_realm'), has(message, 'destination_realm') and "
                                   "not is_none(message.destination_realm) and valid_utf8(some(message.destination_realm)))")],
@@ -275,6 +280,8 @@ R.contract("Node._receive_app_request", params={"self": "Node", "conn": "PeerCon
                      "implies(not no_delivery(self), pwa_has(self, conn.host_identity, message.header.hop_by_hop_identifier))"),
                     ("no-other-host-gets-a-pending-entry",
                      "implies(h1 != conn.host_identity, (h1 in self._peer_waiting_answer) == old(h1 in self._peer_waiting_answer))"),
+                    ("only-the-answered-record-leaves-the-origin-table",
+                     _OWA_ONLY.replace("COND", "len(out(conn)) == old(len(out(conn))) + 1")),
                     ("node-answer-releases-the-origin-record", "implies(len(out(conn)) == old(len(out(conn))) + 1, "
                                                                "not (mkey(message) in self._origin_waiting_answer))"),
                     ("windows-stay-well-formed", "win_ok(self, o)")],
@@ -342,7 +349,7 @@ R.macro("dup_cond", ["n", "m"],
         "m.origin_host in n._sent_answers and m.header.end_to_end_identifier in n._sent_answers[m.origin_host]")
 R.macro("new_out", ["c"], "items(out(c))[old(len(out(c)))]")
 R.contract("Node._receive_message", params={"self": "Node", "conn": "PeerConnection", "msg": "Message"},
-           ghost={"o": "Opt[bytes]", "w": "Any:routekey"},
+           ghost={"o": "Opt[bytes]", "w": "Any:routekey", "mk": "str"},
            requires=[("flags-octet", "0 <= msg.header.command_flags < 256"),
                      ("identity-encodable", "encodable(self.origin_host) and encodable(self.realm_name)"),
                      ("origin-host-attr", "implies(hasattr(msg, 'origin_host'), has(msg, 'origin_host'))"),
@@ -359,6 +366,9 @@ R.contract("Node._receive_message", params={"self": "Node", "conn": "PeerConnect
                     ("duplicate-is-rejected-by-the-node",
                      "implies(old(dup_cond(self, msg)), no_delivery(self) and len(out(conn)) == old(len(out(conn))) + 1 and "
                      "(new_out(conn).result_code == 5012 or new_out(conn).result_code == 5005))"),
+                    ("the-origin-of-an-unanswered-request-is-remembered",
+                     "implies(is_req(msg) and hasattr(msg, 'origin_host') and len(out(conn)) == old(len(out(conn))), "
+                     "mkey(msg) in self._origin_waiting_answer and self._origin_waiting_answer[mkey(msg)][0] == msg.origin_host)"),
                     ("the-node-answers-application-requests-only-with-the-specified-errors",
                      "implies(len(out(conn)) == old(len(out(conn))) + 1 and msg.header.command_code != 257 and "
                      "msg.header.command_code != 280 and msg.header.command_code != 282, "
@@ -382,6 +392,8 @@ R.contract("Node._receive_message", params={"self": "Node", "conn": "PeerConnect
            props=["C07", "C17", "C14"],
            note="message handler of every connection: raises nothing (C14), at most one answer and only for requests (C07), "
                 "T-flag duplicates rejected without delivery (C17)")
+
+R.contracts["Node._receive_message"].ghost_bind = {"Node._receive_app_request": {"mk": "mkey(msg)"}}
 
 # ---- C11 / C06 timers, C18 senders ---------------------------------------------------------------------------
 R.macro("seq_ok", ["g"], "1 <= g._sequence <= 2**32 - 1")
